@@ -1,10 +1,20 @@
 -------------------------- MODULE Trace_SigStore --------------------------
 (***************************************************************************)
 (* Trace validation of the real signature stores against the CONTRACT      *)
-(* SigStoreAbs.  The trace (ndjson, path in env TRACE) is a concatenation   *)
-(* of sequential histories, each starting with a "reset" event.  Every     *)
-(* line is one public API call of the real store with its arguments and    *)
-(* its (projected) result, logged by the driver at the call's return.      *)
+(* SigStoreAbs (C05, C06, C07, C18).  The trace (ndjson, path in env       *)
+(* TRACE) is a concatenation of sequential histories, each starting with a *)
+(* "reset" event.  Every line is one public API call of the real store     *)
+(* with its arguments and its (projected) result, logged by the driver at  *)
+(* the call's return.                                                      *)
+(*                                                                         *)
+(* Crash histories (C07): the call during which durable storage stopped    *)
+(* accepting writes is logged with inflight = TRUE; the next event is      *)
+(* "recovered" with the state listing observed after reset-to-synced and   *)
+(* reopen.  The contract: that state is the pre- or the post-state of the  *)
+(* in-flight mutation (Atomic), which contains every acknowledged mutation *)
+(* (Durable); after a crash inside an index rebuild index-driven lookups   *)
+(* may be incomplete (never wrong) until a rebuild completes (RebuildSafe, *)
+(* Repairable); in every other case all lookups are exact again.           *)
 (*                                                                         *)
 (* The spec is deterministic given the logged arguments, so the behaviour  *)
 (* is one line of states; a result that the contract does not allow sets   *)
@@ -15,13 +25,18 @@ EXTENDS SigStoreAbs, Json, IOUtils
 
 Trace == ndJsonDeserialize(IOEnv.TRACE)
 
-VARIABLES l, sigs, cfg, be, ok
-vars == <<l, sigs, cfg, be, ok>>
+VARIABLES l, sigs, cfg, be, ok,
+          mode,     \* "exact" | "partial" (indexes incomplete after a crash inside a rebuild)
+          alt       \* in-flight mutation at the crash: [kind, post] or NoAlt
+vars == <<l, sigs, cfg, be, ok, mode, alt>>
+
+NoAlt == [kind |-> "none"]
 
 e == Trace[l]
 IsEv(name) == ok /\ l <= Len(Trace) /\ e.ev = name
 Mark(b) == IF b THEN TRUE ELSE TLCSet(1, l)
 Judge(b) == ok' = b /\ Mark(b)
+Inflight(ev) == "inflight" \in DOMAIN ev /\ ev.inflight
 
 WithFP(s) == [id |-> s.id, topo |-> s.topo, fuzzy |-> s.fuzzy, ent |-> s.ent,
               tol |-> s.tol, ver |-> s.ver, fp |-> 0]
@@ -33,88 +48,107 @@ Resolve(q, rids) == IF q = <<>> THEN <<>>
                     ELSE <<WithId(Head(q), Head(rids))>> \o Resolve(Tail(q), Tail(rids))
 
 Init == /\ l = 1 /\ sigs = EmptyMap /\ cfg = [theta |-> 0, tol |-> 0] /\ be = "pebble"
-        /\ ok = TRUE /\ TLCSet(1, 0)
+        /\ ok = TRUE /\ mode = "exact" /\ alt = NoAlt /\ TLCSet(1, 0)
 
 TReset == /\ IsEv("reset")
           /\ sigs' = EmptyMap /\ cfg' = [theta |-> e.theta, tol |-> e.tol] /\ be' = e.be
-          /\ ok' = TRUE /\ l' = l + 1
+          /\ ok' = TRUE /\ mode' = "exact" /\ alt' = NoAlt /\ l' = l + 1
 
 \* ---------------- mutations ----------------
-TAdd == /\ IsEv("add")
-        /\ LET s == e.sig
-               sid == IF s.id = "" THEN e.rid ELSE s.id
-           IN IF be = "pebble" /\ AddErr(s)
-              THEN Judge(e.err) /\ sigs' = sigs
-              ELSE /\ Judge(~e.err /\ sid # "" /\ (s.id = "" => sid \notin DOMAIN sigs))
-                   /\ sigs' = Upsert(sigs, WithId(s, sid))
+Same(S)  == [err |-> FALSE, next |-> S, good |-> TRUE]
+Fails(S) == [err |-> TRUE, next |-> S, good |-> TRUE]
+
+Effect(ev, S) ==
+  CASE ev.ev = "add" ->
+         LET s == ev.sig
+             sid == IF s.id = "" THEN ev.rid ELSE s.id
+         IN IF be = "pebble" /\ AddErr(s) THEN Fails(S)
+            ELSE [err |-> FALSE, next |-> Upsert(S, WithId(s, sid)),
+                  good |-> sid # "" /\ (s.id = "" => sid \notin DOMAIN S)]
+    [] ev.ev = "addbatch" ->
+         IF be = "pebble" /\ AddBatchErr(ev.sigs) THEN Fails(S)
+         ELSE IF Len(ev.rids) # Len(ev.sigs) THEN [err |-> FALSE, next |-> S, good |-> FALSE]
+         ELSE [err |-> FALSE, next |-> UpsertAll(S, Resolve(ev.sigs, ev.rids)),
+               good |-> \A k \in DOMAIN ev.sigs :
+                           /\ ev.rids[k] # ""
+                           /\ (ev.sigs[k].id # "" => ev.rids[k] = ev.sigs[k].id)
+                           /\ (ev.sigs[k].id = "" => ev.rids[k] \notin DOMAIN S)]
+    [] ev.ev = "delete" -> IF DeleteErr(S, ev.id) THEN Fails(S)
+                           ELSE [err |-> FALSE, next |-> Remove(S, ev.id), good |-> TRUE]
+    [] ev.ev = "markfp" -> IF MarkFPErr(S, ev.id) THEN Fails(S)
+                           ELSE [err |-> FALSE, next |-> BumpFP(S, ev.id), good |-> TRUE]
+    \* rebuild, close/reopen, compact, checkpoint: identity on the contract state
+    [] OTHER -> Same(S)
+
+MutEvs == {"add", "addbatch", "delete", "markfp", "rebuild", "reopen", "compact", "checkpoint"}
+
+TMut == /\ ok /\ l <= Len(Trace) /\ e.ev \in MutEvs
+        /\ LET f == Effect(e, sigs) IN
+           IF Inflight(e)
+           THEN \* the call was cut by the crash: its outcome is decided by "recovered"
+                /\ ok' = TRUE /\ sigs' = sigs /\ alt' = [kind |-> e.ev, post |-> f.next]
+                /\ mode' = mode
+           ELSE /\ Judge(e.err = f.err /\ f.good)
+                /\ sigs' = f.next /\ alt' = NoAlt
+                /\ mode' = IF e.ev = "rebuild" /\ ~e.err THEN "exact" ELSE mode
         /\ l' = l + 1 /\ UNCHANGED <<cfg, be>>
 
-TAddBatch ==
-        /\ IsEv("addbatch")
-        /\ IF be = "pebble" /\ AddBatchErr(e.sigs)
-           THEN Judge(e.err) /\ sigs' = sigs
-           ELSE /\ Judge(~e.err /\ Len(e.rids) = Len(e.sigs)
-                         /\ \A k \in DOMAIN e.sigs :
-                               /\ e.rids[k] # ""
-                               /\ (e.sigs[k].id # "" => e.rids[k] = e.sigs[k].id)
-                               /\ (e.sigs[k].id = "" => e.rids[k] \notin DOMAIN sigs))
-                /\ sigs' = IF Len(e.rids) = Len(e.sigs)
-                           THEN UpsertAll(sigs, Resolve(e.sigs, e.rids)) ELSE sigs
-        /\ l' = l + 1 /\ UNCHANGED <<cfg, be>>
-
-TDelete == /\ IsEv("delete")
-           /\ IF DeleteErr(sigs, e.id) THEN Judge(e.err) /\ sigs' = sigs
-              ELSE Judge(~e.err) /\ sigs' = Remove(sigs, e.id)
-           /\ l' = l + 1 /\ UNCHANGED <<cfg, be>>
-
-TMarkFP == /\ IsEv("markfp")
-           /\ IF MarkFPErr(sigs, e.id) THEN Judge(e.err) /\ sigs' = sigs
-              ELSE Judge(~e.err) /\ sigs' = BumpFP(sigs, e.id)
-           /\ l' = l + 1 /\ UNCHANGED <<cfg, be>>
-
-\* rebuild, close/reopen, compact, checkpoint: identity on the contract state
-TIdentity == /\ (IsEv("rebuild") \/ IsEv("reopen") \/ IsEv("compact") \/ IsEv("checkpoint"))
-             /\ Judge(~e.err) /\ l' = l + 1 /\ UNCHANGED <<sigs, cfg, be>>
+\* state listing observed after crash + reset-to-synced + reopen (C07)
+TRecovered ==
+  /\ IsEv("recovered")
+  /\ LET seen == ProjSeq(e.state)
+         isPre == seen = Proj(sigs)
+         isPost == alt # NoAlt /\ seen = Proj(alt.post)
+     IN /\ Judge(~e.err /\ NoDup(e.state) /\ (isPre \/ isPost))
+        /\ sigs' = IF isPre \/ ~isPost THEN sigs ELSE alt.post
+        /\ mode' = IF alt # NoAlt /\ alt.kind = "rebuild" THEN "partial" ELSE mode
+        /\ alt' = NoAlt
+  /\ l' = l + 1 /\ UNCHANGED <<cfg, be>>
 
 TSetCfg == /\ IsEv("setcfg")
            /\ cfg' = [theta |-> e.theta, tol |-> e.tol]
-           /\ ok' = TRUE /\ l' = l + 1 /\ UNCHANGED <<sigs, be>>
+           /\ ok' = TRUE /\ l' = l + 1 /\ UNCHANGED <<sigs, be, mode, alt>>
 
-\* migration of a JSON file (C18).  list = the signatures the file encodes, in
+\* migration of a JSON file (C18).  sigs = the signatures the file encodes, in
 \* file order; complete = the bytes handed to the store are the whole well-formed
 \* file.  A complete file must succeed with n = |list| and last-wins upserts; an
 \* incomplete one must report an error (no short success) and may have applied
-\* any prefix of the list, which the logged post-state (export) pins down.
-PrefixStates(S, q) == {UpsertAll(S, SubSeq(q, 1, k)) : k \in 0..Len(q)}
-AsMap(r) == [i \in Ids(r) |-> LET k == CHOOSE k \in DOMAIN r : r[k].id = i IN WithFP(r[k])]
+\* any prefix of the list, which the logged post-state listing pins down.
 TMigrate ==
   /\ IsEv("migrate")
   /\ LET q == Resolve(e.sigs, e.rids) IN
      IF e.complete
      THEN /\ Judge(~e.err /\ e.n = Len(e.sigs))
           /\ sigs' = UpsertAll(sigs, q)
-     ELSE LET post == AsMap(e.post) IN
-          /\ Judge(e.err /\ NoDup(e.post) /\ post \in PrefixStates(sigs, q))
-          /\ sigs' = post
-  /\ l' = l + 1 /\ UNCHANGED <<cfg, be>>
+     ELSE LET seen == ProjSeq(e.post)
+              ks == {k \in 0..Len(q) : Proj(UpsertAll(sigs, SubSeq(q, 1, k))) = seen}
+          IN /\ Judge(e.err /\ NoDup(e.post) /\ ks # {})
+             /\ sigs' = IF ks = {} THEN sigs ELSE UpsertAll(sigs, SubSeq(q, 1, CHOOSE k \in ks : TRUE))
+  /\ l' = l + 1 /\ UNCHANGED <<cfg, be, mode, alt>>
 
 \* ---------------- queries ----------------
-Query(name, good) == /\ IsEv(name) /\ Judge(good) /\ l' = l + 1 /\ UNCHANGED <<sigs, cfg, be>>
+Query(name, good) == /\ IsEv(name) /\ Judge(good) /\ l' = l + 1
+                     /\ UNCHANGED <<sigs, cfg, be, mode, alt>>
+X == mode = "exact"
 
 TGet     == Query("get", ~e.err /\ GetOK(e.res, sigs, e.id))
-TByTopo  == Query("bytopo", ByTopoOK(e.res, sigs, e.h))
-TEntropy == Query("entropy", ~e.err /\ EntropyOK(e.res, sigs, e.lo, e.hi))
-TCand    == Query("cand", ~e.err /\ IF be = "json" THEN /\ NoDup(e.res) /\ Ids(e.res) = CandJson(sigs, e.q)
-                                                        /\ \A k \in DOMAIN e.res : e.res[k].ver = sigs[e.res[k].id].ver
-                                    ELSE CandOK(e.res, sigs, e.q, cfg))
-TScan    == Query("scan", ~e.err /\ ScanOK(e.res, sigs, e.q, cfg, e.tbl))
-TExact   == Query("exact", ~e.err /\ ExactOK(e.res, sigs, e.q, cfg, e.tbl))
+TByTopo  == Query("bytopo", IF X THEN ByTopoOK(e.res, sigs, e.h) ELSE ByTopoPartialOK(e.res, sigs, e.h))
+TEntropy == Query("entropy", ~e.err /\ IF X THEN EntropyOK(e.res, sigs, e.lo, e.hi)
+                                         ELSE EntropyPartialOK(e.res, sigs, e.lo, e.hi))
+TCand    == Query("cand", ~e.err /\
+                  IF be = "json" THEN /\ NoDup(e.res) /\ Ids(e.res) = CandJson(sigs, e.q)
+                                      /\ \A k \in DOMAIN e.res : e.res[k].ver = sigs[e.res[k].id].ver
+                  ELSE IF X THEN CandOK(e.res, sigs, e.q, cfg) ELSE CandPartialOK(e.res, sigs, e.q, cfg))
+TScan    == Query("scan", ~e.err /\ IF X THEN ScanOK(e.res, sigs, e.q, cfg, e.tbl)
+                                      ELSE ScanPartialOK(e.res, sigs, e.q, cfg, e.tbl))
+TExact   == Query("exact", ~e.err /\ IF X THEN ExactOK(e.res, sigs, e.q, cfg, e.tbl)
+                                       ELSE ExactPartialOK(e.res, sigs, e.q, cfg, e.tbl))
 TList    == Query("list", ~e.err /\ ListOK(e.res, sigs))
 TCount   == Query("count", ~e.err /\ CountOK(e.res, sigs))
-TStats   == Query("stats", ~e.err /\ StatsOK(e.res, sigs))
+TStats   == Query("stats", ~e.err /\ IF X THEN StatsOK(e.res, sigs) ELSE StatsPartialOK(e.res, sigs))
 TExport  == Query("export", ~e.err /\ ExportOK(e.res, sigs))
 
-Next == \/ TReset \/ TAdd \/ TAddBatch \/ TDelete \/ TMarkFP \/ TIdentity \/ TSetCfg \/ TMigrate
+Next == \/ TReset \/ TMut \/ TRecovered \/ TSetCfg \/ TMigrate
         \/ TGet \/ TByTopo \/ TEntropy \/ TCand \/ TScan \/ TExact \/ TList \/ TCount
         \/ TStats \/ TExport
 
